@@ -106,6 +106,24 @@ func randFsItems(rng *rand.Rand, mix fsTraceMix) []fsItem {
 		names = append(names, []string{"L"})
 	}
 	var items []fsItem
+	if !manyRoots && rng.Intn(4) == 0 {
+		// one history in four: a chain of directories down to level 2-9 whose last directory holds names that are
+		// files under the usual extension lists, each with later siblings (files, then a file or a directory)
+		level := 2 + rng.Intn(8)
+		for d := 1; d < level; d++ {
+			items = append(items, fsItem{D: d, N: [][]string{{"a"}, {"b"}, {"e"}}[rng.Intn(3)]})
+		}
+		items = append(items, fsItem{D: level, N: []string{"f", "DOT", "x"}}, fsItem{D: level, N: []string{"a", "DOT", "x"}})
+		last := [][]string{{"b", "DOT", "x", "DOT", "e"}, {"a"}, {"x"}, {"e", "f"}}[rng.Intn(4)]
+		items = append(items, fsItem{D: level, N: last})
+		if rng.Intn(2) == 0 {
+			items = append(items, fsItem{D: level + 1, N: []string{"b"}})
+		}
+		if level > 2 && rng.Intn(2) == 0 { // and a file beside one of the directories above
+			items = append(items, fsItem{D: 2 + rng.Intn(level-2), N: []string{"f", "DOT", "x"}})
+		}
+		return items
+	}
 	d := 1
 	for i := 0; i < n; i++ {
 		if i == 0 {
@@ -340,6 +358,9 @@ func traceFsHistories(r *evid.Run, pool *wproto.Pool, nHist int, mix fsTraceMix,
 					if rng.Intn(4) == 0 {
 						exts = append(exts, e)
 					}
+				}
+				if len(exts) == 0 && rng.Intn(2) == 0 {
+					exts = append(exts, []string{"DOT", "x"}) // (half of the calls without a list: the usual suffix)
 				}
 				rq := wproto.Req{Op: "mkdir", Target: filepath.Join(j.root, "t"), DryRun: dry, Route: route, Exts: extStrings(exts, c), Alias: rng.Intn(3) == 0}
 				if route == "root" {
